@@ -97,11 +97,11 @@ Section CheckFn.
     match a, b with Glob x, Glob y => String.eqb x y | _, _ => false end.
 
   (* the final instruction *)
-  Definition term_ok (t t' : instr) : option (list (vref * vref)) :=
+  Definition term_ok (tr : bid -> bid -> bool) (t t' : instr) : option (list (vref * vref)) :=
     match t, t' with
-    | IJump b, IJump b' => if Pos.eqb b b' then Some [] else None
+    | IJump b, IJump b' => if tr b b' then Some [] else None
     | ICJump x cc y yes no, ICJump x' cc' y' yes' no' =>
-        if dec2b cond_eq_dec cc cc' && Pos.eqb yes yes' && Pos.eqb no no' then Some [(x, x'); (y, y')] else None
+        if dec2b cond_eq_dec cc cc' && tr yes yes' && tr no no' then Some [(x, x'); (y, y')] else None
     | IReturn a, IReturn a' => Some [(a, a')]
     | IExit, IExit => Some []
     | _, _ => None
@@ -111,7 +111,7 @@ Section CheckFn.
   Definition place_ok (ds ds' : list vid) : bool :=
     forallb (fun p => Bool.eqb (mem_pos (fst p) ds') (mem_pos (snd p) ds)) rho.
 
-  Fixpoint check_body (fuel : nat) (l l' : list instr) : bool :=
+  Fixpoint check_body (tr : bid -> bid -> bool) (fuel : nat) (l l' : list instr) : bool :=
     match fuel with
     | O => false
     | S n =>
@@ -125,13 +125,13 @@ Section CheckFn.
             check_block c f false f' rho seg seg' (outs_defs seg' ++ combine cargs cargs')
             && callee_eqb cal cal' && Nat.eqb (List.length cargs) (List.length cargs')
             && match rget rho v' with Some w => Pos.eqb w v | None => false end
-            && check_body n r r'
+            && check_body tr n r r'
         | ICallP cal cargs, ICallP cal' cargs' =>
             check_block c f false f' rho seg seg' (outs_defs seg' ++ combine cargs cargs')
             && callee_eqb cal cal' && Nat.eqb (List.length cargs) (List.length cargs')
-            && check_body n r r'
+            && check_body tr n r r'
         | _, _ =>
-            match term_ok i i' with
+            match term_ok tr i i' with
             | Some ps => check_block c f false f' rho seg seg' (outs_defs seg' ++ ps)
             | None => false
             end
@@ -163,7 +163,7 @@ Section CheckFn.
     Pos.eqb (b_id k) (b_id k')
     && place_ok (phi_vids (b_ins k)) (phi_vids (b_ins k'))
     && check_phis (b_ins k) (b_ins k')
-    && check_body (S (List.length (b_ins k) + List.length (b_ins k'))) (b_ins k) (b_ins k').
+    && check_body Pos.eqb (S (List.length (b_ins k) + List.length (b_ins k'))) (b_ins k) (b_ins k').
 
   Fixpoint check_blocks (l l' : list block) : bool :=
     match l, l' with
